@@ -5,7 +5,6 @@ import (
 	"strings"
 	"time"
 
-	"github.com/nyaruka/gocommon/dates"
 	"github.com/nyaruka/gocommon/stringsx"
 	"github.com/nyaruka/goflow/assets"
 	"github.com/nyaruka/goflow/envs"
@@ -145,7 +144,9 @@ func numberComparison(objectVal decimal.Decimal, op Operator, queryVal decimal.D
 }
 
 func dateComparison(objectVal time.Time, op Operator, queryVal time.Time) bool {
-	utcDayStart, utcDayEnd := dates.DayToUTCRange(queryVal, queryVal.Location())
+	// the range of the query value's calendar day.. note that not all days are 24 hours long
+	utcDayStart := time.Date(queryVal.Year(), queryVal.Month(), queryVal.Day(), 0, 0, 0, 0, queryVal.Location())
+	utcDayEnd := time.Date(queryVal.Year(), queryVal.Month(), queryVal.Day()+1, 0, 0, 0, 0, queryVal.Location())
 
 	switch op {
 	case OpEqual:
